@@ -18,7 +18,7 @@ from harness.props import c06
 from harness.props.c06 import fr, tok_num, tok_opt, tok_unit, tok_val, close, U, observe
 
 PROP = 'C16'
-GENERATED = ['TimeUnits', 'TimeParConsts', 'HazardExprs', 'TimeDecls', 'StepClocks', 'ParsUpdate']
+GENERATED = ['TimeUnits', 'TimeParConsts', 'HazardExprs', 'TimeDecls', 'StepClocks', 'ParsUpdate', 'TableIndex']
 DRIVER = 'Drivers/C16.lean'
 DRIVER_MODULES = ['StarsimModel.Model.Hazard', 'StarsimModel.Model.TimePar', 'StarsimModel.Model.Proto']
 RULE = ('seeded (sim unit, dt) x (module unit, dt) x rate form (TimePar of any unit / plain number / year-sex-age table) x agents; '
@@ -278,6 +278,8 @@ def correspond(ctx):
     r4.correspond(ctx, sys.modules[__name__])
     from harness.props import c16_round5 as r5
     r5.correspond(ctx, sys.modules[__name__])
+    from harness.props import c16_round6 as r6
+    r6.correspond(ctx, sys.modules[__name__])
 
 
 def delivery_prob(su, sdt, dur, P):
@@ -494,6 +496,16 @@ def _r5(name):
 ORACLES.update({k: _r5(k) for k in ('override', 'waning', 'kernel', 'dt_pair')})
 
 
+def _r6(name):
+    def f(a):
+        from harness.props import c16_round6 as r6
+        return r6.ORACLES[name](a, sys.modules[__name__])
+    return f
+
+
+ORACLES.update({k: _r6(k) for k in ('frac_table', 'frac_births', 'frac_fert', 'table_run')})
+
+
 def run_oracle(ctx, name, args):
     try:
         fails = ORACLES[name](args)
@@ -533,6 +545,8 @@ def search(ctx):
     r4.search(ctx, sys.modules[__name__], run_oracle)
     from harness.props import c16_round5 as r5
     r5.search(ctx, sys.modules[__name__], run_oracle)
+    from harness.props import c16_round6 as r6
+    r6.search(ctx, sys.modules[__name__], run_oracle)
     from harness.props import c16_zoo
     c16_zoo.search(ctx, sys.modules[__name__])
     run_oracle(ctx, 'events', dict(kind='births', dts=[1.0, 0.5, 0.2], seed=rng.randint(1, 10 ** 6)))
